@@ -41,6 +41,7 @@ RULE = ("random table Hamiltonians (1-4 variables, 1-5 bonds on 1-4 variables (3
         "prob: threshold bisection of the bond/attempt/acceptance/removal words of a random empty slot k inside a sweep, "
         "compared with the model's rationals and (oracle, real code only) p_insert/p_remove against beta*w/(L-n) with the n current at slot k. "
         "generic: Qmc with set_do_heatbath(true) that has already swept (lazy table built) gets a further interaction (3/4 of them with an all-equal diagonal: constant term, equal-diagonal full matrix, constant diagonal constructor), then diagonal_update trajectories replayed with the table of the CURRENT interactions (gsweep) and the insert/remove probabilities of the NEW bond bisected (gprob); "
+        "converted: Ising samplers run hot then cold (sparse long string; 1/6 converted before any step; 1/4 frustrated) and converted with into_qmc: first sweep must use the Ising cutoff at conversion, trajectories (msweep/gsweep), heat-bath bisection, and a drain step at beta = 1e-12 after which no operator with inputs == outputs may remain anywhere in the string; ising_field: QmcIsingGraph with h of either sign and set_enable_heatbath(true): sweeps replayed with the table of the full Hamiltonian, FIELD bonds bisected on favoured spins (weight 2|h|) and shown never inserted on unfavoured spins (gzero); "
         "Non-trivial = the sweep visits at least one slot that is empty or holds an op; distinct = distinct input line.")
 
 
